@@ -65,3 +65,16 @@ def RequiredArgumentMissing (s : Schema) (d : Document) : Prop :=
       ad ∈ dd.args ∧ ad.isRequired = true ∧ ∀ a ∈ dir.args, a.1 ≠ ad.name)
 
 end Gql.Spec
+
+namespace Gql.Spec
+
+/-! ### 5.2 Operations (C11) -/
+
+/-- 5.2.1.1: two operations share a name -/
+def DuplicateOperationName (d : Document) : Prop := ¬ (d.operations.filterMap (·.name)).Nodup
+
+/-- 5.2.2.1: an anonymous operation coexists with another operation -/
+def AnonymousNotAlone (d : Document) : Prop :=
+  (∃ o ∈ d.operations, o.name = none) ∧ d.operations.length > 1
+
+end Gql.Spec
